@@ -57,28 +57,33 @@ def _overlap(a: str, b: str) -> bool:
     return False
 
 
-def regex_source(ctx: Ctx):
-    fi = ctx.pm.func("TextConverter._create_latex_pattern")
-    for n in walk_no_nested(fi.node):
-        if isinstance(n, ast.Call) and dotted(n.func) in ("re.compile", "compile") and n.args:
-            v = const_expr(ctx.pm, fi.module, _inline(fi, n.args[0]))
-            if isinstance(v, str):
-                flags = len(n.args) > 1 or bool(n.keywords)
-                return fi, n, v, flags
-    raise AnalysisError("LaTeX command pattern (re.compile of a constant) not found in TextConverter._create_latex_pattern")
+def regex_source(ctx: Ctx, subs: list):
+    """the tokenizer pattern, identified by role: the compiled pattern on which the LaTeX substitution is performed
+    (`P.sub(callback, text)` / `re.sub(P, callback, text)`), evaluated as a constant through the abstract interpreter
+    (so it may be built inline, in a factory method, or be a module-level constant)."""
+    import re as _re
+    from ..consteval import interp_for
+    from ..docshape import _DUMMY
+    from ..absint import constof
+    pm = ctx.pm
+    it = interp_for(pm)
+    for ev in subs:
+        fi, node, pexpr = ev["fi"], ev["node"], ev["pattern"]
+        env = {"__module__": fi.module}
+        if fi.cls:
+            env["self"] = it.construct(fi.cls, [], {}, _DUMMY)
+            env["__class__"] = fi.cls
+        v = constof(it.ev(pexpr, env))
+        if isinstance(v, str):
+            return fi, node, v, False
+        if isinstance(v, _re.Pattern):
+            return fi, node, v.pattern, bool(v.flags & ~_re.UNICODE)
+    raise AnalysisError("LaTeX command pattern: the pattern object of the regex substitution could not be evaluated to a constant"
+                        if subs else "LaTeX command pattern: no regex substitution (pattern.sub(callback, text)) found on the conversion path")
 
 
-def _inline(fi, e):
-    if isinstance(e, ast.Name):
-        a = [n for n in walk_no_nested(fi.node) if isinstance(n, ast.Assign) and len(n.targets) == 1
-             and isinstance(n.targets[0], ast.Name) and n.targets[0].id == e.id]
-        if len(a) == 1:
-            return a[0].value
-    return e
-
-
-def r11_2(ctx: Ctx, table: dict):
-    fi, node, pat, flags = regex_source(ctx)
+def r11_2(ctx: Ctx, table: dict, subs: list):
+    fi, node, pat, flags = regex_source(ctx, subs)
     where = fi.where(node)
     import re._parser as sre
     import re._constants as C
@@ -162,86 +167,966 @@ def r11_3(ctx: Ctx, mapping: dict, table: dict, rx) -> None:
     ctx.floor("R11.3", 8)
 
 
-def r11_4(ctx: Ctx) -> None:
+# ------------------------------------------------------------------------------------------------ symbolic executor
+REWRITING = {"replace", "translate", "strip", "lstrip", "rstrip", "lower", "upper", "title", "expandtabs", "casefold",
+             "splitlines", "split", "rsplit", "partition", "rpartition", "join", "normalize", "encode", "decode",
+             "removeprefix", "removesuffix", "center", "ljust", "rjust", "zfill", "swapcase", "capitalize", "format"}
+QUERIES = {"startswith", "endswith", "isdigit", "isascii", "isalpha", "isalnum", "isspace", "isprintable", "isupper",
+           "islower", "isnumeric", "isdecimal", "isidentifier", "find", "rfind", "index", "rindex", "count"}
+
+
+class Sym:
+    """Symbolic execution of the text pipeline for one value of the conversion flag ('world').
+
+    The tracked string is the value ("text", root, ops): `root` names where it comes from ("doc" = the text field of
+    the entry object, "cmd" = the whole match of the LaTeX tokenizer) and `ops` is the sequence of transformations
+    applied to it so far.  Branches whose test is decided by the world's constants are followed on one side only;
+    other branches are followed on both sides and joined (sets of values).  Repository functions that receive a
+    tracked value are entered, so helper extraction, guard clauses and temporaries do not change the result.
+    Recorded events: the strings that reach the per-character escaper, regex substitutions applied to the text,
+    table look-ups keyed by the text."""
+
+    def __init__(self, pm, world: dict, text_fields: set, escape_nodes: set):
+        self.pm = pm
+        self.world = world              # (class, attribute) -> python constant
+        self.text_fields = text_fields  # (class, attribute) pairs that are the tracked document text
+        self.escape_nodes = escape_nodes
+        self.cvals: list = []
+        self.objs: dict = {}
+        self.closures: dict = {}
+        self.lambdas: list = []
+        self.events: list = []
+        self.stack: list = []
+        self.unsupported: list = []
+
+    # ---- values
+    def const(self, v):
+        try:
+            hash(v)
+            if isinstance(v, (str, int, float, bool, type(None), bytes)):
+                return ("const", type(v).__name__, v)
+        except TypeError:
+            pass
+        self.cvals.append(v)
+        return ("cref", len(self.cvals) - 1)
+
+    def pyval(self, v):
+        if v[0] == "const":
+            return True, v[2]
+        if v[0] == "cref":
+            return True, self.cvals[v[1]]
+        return False, None
+
+    @staticmethod
+    def text(root, ops=()):
+        return ("text", root, tuple(ops))
+
+    @staticmethod
+    def is_text(v):
+        return v[0] == "text"
+
+    def other(self, n):
+        return ("other", unparse(n)[:60] if isinstance(n, ast.AST) else str(n)[:60])
+
+    def new_obj(self, cls):
+        oid = len(self.objs)
+        self.objs[oid] = {}
+        return ("obj", cls, oid)
+
+    def with_op(self, vals, op):
+        """apply a transformation to every tracked string among vals"""
+        out = set()
+        for v in vals:
+            if self.is_text(v):
+                out.add(self.text(v[1], v[2] + (op,)))
+            elif v[0] == "esc":
+                out.add(v)
+        return out
+
+    # ---- expressions
+    def ev(self, e, env, fi) -> frozenset:
+        m = getattr(self, "ev_" + type(e).__name__, None)
+        if m is None:
+            return frozenset({self.other(e)})
+        return frozenset(m(e, env, fi))
+
+    def ev_Constant(self, e, env, fi):
+        return {self.const(e.value)}
+
+    def ev_Name(self, e, env, fi):
+        if e.id in env:
+            return env[e.id]
+        r = self.pm.resolve(fi.module, e.id)
+        if r:
+            kind, payload = r
+            if kind == "class":
+                return {("cls", payload.name)}
+            if kind == "func":
+                return {("fn", payload.short)}
+            if kind == "value":
+                v = const_expr(self.pm, fi.module, e)
+                if v is not NOC:
+                    return {self.const(v)}
+            if kind in ("module", "ext"):
+                return {("ext", payload.name if kind == "module" else str(payload))}
+        return {self.other(e)}
+
+    def attr_of(self, b, attr, e, fi):
+        if b[0] == "obj":
+            cls, oid = b[1], b[2]
+            if (cls, attr) in self.world:
+                return {self.const(self.world[(cls, attr)])}
+            if attr in self.objs[oid]:
+                return self.objs[oid][attr]
+            for c in self.pm.mro(cls):
+                if (c, attr) in self.world:
+                    return {self.const(self.world[(c, attr)])}
+                if (c, attr) in self.text_fields:
+                    return {self.text("doc")}
+            meth = self.pm.find_method(cls, attr)
+            if meth is not None:
+                return {("meth", meth.short, b)}
+            ann = self.pm.field_ann(cls, attr)
+            if ann:
+                a = ann.replace(" ", "")
+                cs = [t for t in re.findall(r"[A-Za-z_][A-Za-z_0-9]*", a) if t in self.pm.classes]
+                if cs:
+                    return {self.new_obj(cs[0])} | ({self.const(None)} if "None" in a else set())
+                if a == "bool":
+                    return {("bool",)}
+            try:
+                v = const_attr(self.pm, cls, attr)
+                if v is not NOC:
+                    return {self.const(v)}
+            except AnalysisError:
+                pass
+            return {self.other(e)}
+        if b[0] == "cls":
+            meth = self.pm.find_method(b[1], attr)
+            if meth is not None:
+                return {("meth", meth.short, b)}
+            try:
+                v = const_attr(self.pm, b[1], attr)
+                if v is not NOC:
+                    return {self.const(v)}
+            except AnalysisError:
+                pass
+            return {self.other(e)}
+        if b[0] == "ext":
+            return {("ext", b[1] + "." + attr)}
+        return {self.other(e)}
+
+    def ev_Attribute(self, e, env, fi):
+        out = set()
+        for b in self.ev(e.value, env, fi):
+            out |= set(self.attr_of(b, e.attr, e, fi))
+        return out
+
+    def ev_IfExp(self, e, env, fi):
+        t = self.truth(e.test, env, fi)
+        if t is True:
+            return self.ev(e.body, self.narrow(dict(env), e.test, True, fi), fi)
+        if t is False:
+            return self.ev(e.orelse, self.narrow(dict(env), e.test, False, fi), fi)
+        return self.ev(e.body, self.narrow(dict(env), e.test, True, fi), fi) | self.ev(e.orelse, self.narrow(dict(env), e.test, False, fi), fi)
+
+    def ev_BoolOp(self, e, env, fi):
+        out = set()
+        for i, v in enumerate(e.values):
+            t = self.truth(v, env, fi)
+            last = i == len(e.values) - 1
+            if isinstance(e.op, ast.And):
+                if t is False:
+                    return out | set(self.ev(v, env, fi))
+                if t is True and not last:
+                    continue
+            else:
+                if t is True:
+                    return out | set(self.ev(v, env, fi))
+                if t is False and not last:
+                    continue
+            out |= set(self.ev(v, env, fi))
+        return out
+
+    def ev_UnaryOp(self, e, env, fi):
+        if isinstance(e.op, ast.Not):
+            t = self.truth(e.operand, env, fi)
+            return {self.const(not t)} if t is not None else {("bool",)}
+        return {self.other(e)}
+
+    def ev_Compare(self, e, env, fi):
+        t = self.truth(e, env, fi)
+        for x in [e.left] + list(e.comparators):
+            self.ev(x, env, fi)
+        return {self.const(t)} if t is not None else {("bool",)}
+
+    def ev_JoinedStr(self, e, env, fi):
+        vals = set()
+        for v in e.values:
+            if isinstance(v, ast.FormattedValue):
+                vals |= set(self.ev(v.value, env, fi))
+        r = self.with_op(vals, ("format", unparse(e)[:50], fi.where(e)))
+        return r or {self.other(e)}
+
+    def ev_BinOp(self, e, env, fi):
+        l, r = self.ev(e.left, env, fi), self.ev(e.right, env, fi)
+        ok1, ok2 = [self.pyval(v) for v in l], [self.pyval(v) for v in r]
+        if len(l) == 1 and len(r) == 1 and ok1[0][0] and ok2[0][0]:
+            try:
+                from ..absint import _binop
+                v = _binop(e.op, ok1[0][1], ok2[0][1])
+                if v is not NOC:
+                    return {self.const(v)}
+            except Exception:
+                pass
+        res = self.with_op(l | r, ("concat", unparse(e)[:50], fi.where(e)))
+        return res or {self.other(e)}
+
+    def ev_Tuple(self, e, env, fi):
+        vals = [self.ev(x, env, fi) for x in e.elts]
+        if all(len(v) == 1 and self.pyval(next(iter(v)))[0] for v in vals):
+            seq = [self.pyval(next(iter(v)))[1] for v in vals]
+            return {self.const(tuple(seq) if isinstance(e, ast.Tuple) else list(seq))}
+        out = set()
+        for v in vals:
+            out |= {x for x in v if self.is_text(x) or x[0] == "esc"}
+        return out or {self.other(e)}
+
+    ev_List = ev_Tuple
+    ev_Set = ev_Tuple
+
+    def ev_Dict(self, e, env, fi):
+        v = const_expr(self.pm, fi.module, e)
+        return {self.const(v)} if v is not NOC else {self.other(e)}
+
+    def ev_Lambda(self, e, env, fi):
+        self.lambdas.append((e, dict(env), fi))
+        return {("lambda", len(self.lambdas) - 1)}
+
+    def ev_Subscript(self, e, env, fi):
+        base = self.ev(e.value, env, fi)
+        idx = self.ev(e.slice, env, fi) if not isinstance(e.slice, ast.Slice) else frozenset()
+        out = set()
+        for b in base:
+            if b[0] == "match":
+                ok = [self.pyval(i) for i in idx]
+                out.add(self.text("cmd") if len(ok) == 1 and ok[0][0] and ok[0][1] == 0 else self.other(e))
+            elif self.is_text(b) or b[0] == "esc":
+                out |= self.with_op({b}, ("index", unparse(e)[:50], fi.where(e)))
+            elif any(self.is_text(i) for i in idx):
+                # TABLE[key] keyed by the tracked string: a look-up that is the identity on a miss only if it is
+                # guarded by `key in TABLE` (the other branch then decides what a miss returns)
+                from ..astmatch import guard_atoms, guards
+                atoms = guard_atoms(guards(e, fi.node))
+                if f"{unparse(e.slice)} in {unparse(e.value)}" in atoms:
+                    dflt = idx
+                else:
+                    p, in_try = getattr(e, "_parent", None), False
+                    while p is not None and p is not fi.node:
+                        in_try = in_try or isinstance(p, ast.Try)
+                        p = getattr(p, "_parent", None)
+                    dflt = frozenset({("raises", "maybe handled" if in_try else "KeyError")})
+                self.events.append({"kind": "lookup", "fi": fi, "node": e, "table": frozenset({b}), "key": idx, "default": dflt})
+                out.add(("lookup", len(self.events) - 1))
+            else:
+                okb, pb = self.pyval(b)
+                oki = [self.pyval(i) for i in idx]
+                if okb and len(oki) == 1 and oki[0][0]:
+                    try:
+                        out.add(self.const(pb[oki[0][1]]))
+                        continue
+                    except Exception:
+                        pass
+                out.add(self.other(e))
+        return out
+
+    def _comp(self, e, env, fi):
+        g = e.generators[0]
+        itv = self.ev(g.iter, env, fi)
+        if id(e) in self.escape_nodes:
+            self.events.append({"kind": "chars", "fi": fi, "node": e, "vals": itv})
+            return {("esc",)}
+        env2 = dict(env)
+        self.bind(g.target, self.elems(itv, g.iter), env2, fi)
+        for g2 in e.generators[1:]:
+            self.bind(g2.target, self.elems(self.ev(g2.iter, env2, fi), g2.iter), env2, fi)
+        elts = [e.elt] if not isinstance(e, ast.DictComp) else [e.key, e.value]
+        out = set()
+        for x in elts:
+            out |= {v for v in self.ev(x, env2, fi) if self.is_text(v) or v[0] == "esc"}
+        return out or {self.other(e)}
+
+    ev_ListComp = ev_GeneratorExp = ev_SetComp = ev_DictComp = _comp
+
+    def elems(self, itv, node):
+        """values of the elements of an iterable value"""
+        out = set()
+        for v in itv:
+            ok, pv = self.pyval(v)
+            if ok and isinstance(pv, (list, tuple, set, frozenset, dict)) and len(pv) <= 64:
+                for x in pv:
+                    out.add(self.const(x))
+            elif self.is_text(v):
+                out.add(self.text(v[1], v[2] + (("element", unparse(node)[:50], ""),)))
+            elif v[0] == "esc":
+                out.add(v)
+            else:
+                out.add(("other", "element of " + unparse(node)[:40]))
+        return frozenset(out)
+
+    # ---- calls
+    def ev_Call(self, e, env, fi):
+        f = e.func
+        args = [self.ev(a.value if isinstance(a, ast.Starred) else a, env, fi) for a in e.args]
+        kw = {k.arg: self.ev(k.value, env, fi) for k in e.keywords if k.arg}
+        if isinstance(f, ast.Attribute):
+            out = set()
+            for b in self.ev(f.value, env, fi):
+                out |= set(self.call_method(b, f.attr, args, kw, e, env, fi))
+            return out
+        if isinstance(f, ast.Name) and f.id not in env:
+            r = self.builtin(f.id, args, kw, e, env, fi)
+            if r is not None:
+                return r
+        out = set()
+        for fv in self.ev(f, env, fi):
+            out |= set(self.call_value(fv, args, kw, e, fi))
+        return out
+
+    def builtin(self, name, args, kw, e, env, fi):
+        a0 = args[0] if args else frozenset()
+        if name == "str" and len(args) == 1:
+            out = set()
+            for v in a0:
+                ok, pv = self.pyval(v)
+                if self.is_text(v) or v[0] == "esc":
+                    out.add(v)
+                elif ok:
+                    out.add(self.const(str(pv)))
+                else:
+                    out.add(self.other(e))
+            return out
+        if name == "isinstance" and len(args) == 2:
+            t = self.truth(e, env, fi)
+            return {self.const(t)} if t is not None else {("bool",)}
+        if name in ("list", "tuple", "iter") and len(args) == 1:
+            return set(a0)
+        if name == "getattr" and len(args) >= 2:
+            out = set()
+            for k in args[1]:
+                ok, pk = self.pyval(k)
+                if not (ok and isinstance(pk, str)):
+                    return {self.other(e)}
+                for b in a0:
+                    out |= set(self.attr_of(b, pk, e, fi))
+            return out
+        if name in ("print", "len", "ord", "chr", "int", "float", "bool", "repr", "id", "hash", "type", "range", "enumerate", "zip",
+                    "sorted", "set", "frozenset", "reversed", "max", "min", "sum", "any", "all", "map", "filter", "dict", "open"):
+            if name in ("print", "len", "ord", "int", "float", "bool", "id", "hash", "type", "range", "any", "all", "open"):
+                return {("other", name + "(…)")}
+            return self.generic(name, args, kw, e, fi, frozenset())
+        return None
+
+    def generic(self, fname, args, kw, e, fi, recv):
+        """a call that is not followed: a tracked string among receiver/arguments stays tracked, with the call as an op"""
+        vals = set(recv)
+        for a in args:
+            vals |= set(a)
+        for a in kw.values():
+            vals |= set(a)
+        r = self.with_op(vals, ("call", unparse(e)[:60], fi.where(e)))
+        return r or {self.other(e)}
+
+    def call_method(self, b, m, args, kw, e, env, fi):
+        if b[0] in ("obj", "cls"):
+            meth = self.pm.find_method(b[1], m)
+            if meth is not None:
+                return self.call_fn(meth, b, args, kw, e)
+            if b[0] == "obj" and m in self.objs[b[2]]:
+                out = set()
+                for fv in self.objs[b[2]][m]:
+                    out |= set(self.call_value(fv, args, kw, e, fi))
+                return out
+            return self.generic(m, args, kw, e, fi, frozenset())
+        if b[0] == "match":
+            if m == "group" and (not args or all(self.pyval(v) == (True, 0) for v in args[0])) and len(args) <= 1:
+                return {self.text("cmd")}
+            return {self.other(e)}
+        if m == "sub" and not self.is_text(b) and b[0] != "esc":
+            # pattern.sub(repl, string[, count]) or re.sub(pattern, repl, string[, count])
+            is_re = b == ("ext", "re")
+            pos = list(e.args)
+            need = 3 if is_re else 2
+            if len(pos) >= need or "string" in kw:
+                sv = kw.get("string", args[need - 1] if len(args) >= need else frozenset())
+                rv = kw.get("repl", args[need - 2] if len(args) >= need - 1 else frozenset())
+                if any(self.is_text(v) for v in sv):
+                    pexpr = pos[0] if is_re else e.func.value
+                    rexpr = next((k.value for k in e.keywords if k.arg == "repl"), pos[need - 2] if len(pos) >= need - 1 else e)
+                    self.events.append({"kind": "sub", "fi": fi, "node": e, "pattern": pexpr, "repl": rv, "repl_expr": rexpr,
+                                        "limited": len(pos) > need or "count" in kw or "flags" in kw})
+                    return self.with_op(sv, ("sub", len(self.events) - 1, fi.where(e)))
+        if self.is_text(b) or b[0] == "esc":
+            if m in QUERIES:
+                return {("bool",)}
+            return self.with_op({b}, (m, ", ".join(unparse(a) for a in e.args)[:50], fi.where(e)))
+        ok, pv = self.pyval(b)
+        if ok:
+            avs = [[self.pyval(v) for v in a] for a in args]
+            if m in ("items", "keys", "values") and isinstance(pv, dict) and not args:
+                return {self.const(list(getattr(pv, m)()))}
+            if m == "get" and hasattr(pv, "get") and 1 <= len(args) <= 2 and not kw:
+                if all(len(a) == 1 and a[0][0] for a in avs):
+                    try:
+                        return {self.const(pv.get(*[a[0][1] for a in avs]))}
+                    except Exception:
+                        pass
+                return self.lookup(frozenset({b}), args, e, fi)
+            if m == "join" and isinstance(pv, str) and len(args) == 1:
+                r = self.with_op(args[0], ("join", repr(pv), fi.where(e)))
+                if r:
+                    return r
+            if all(len(a) == 1 and a[0][0] for a in avs) and not kw and isinstance(pv, (str, tuple, list, dict, frozenset)) \
+                    and m not in ("append", "extend", "update", "pop", "clear", "sort", "insert", "remove", "setdefault"):
+                try:
+                    return {self.const(getattr(pv, m)(*[a[0][1] for a in avs]))}
+                except Exception:
+                    pass
+        if m == "get" and 1 <= len(args) <= 2 and not kw and any(self.is_text(v) for v in args[0]):
+            return self.lookup(frozenset({b}), args, e, fi)
+        return self.generic(m, args, kw, e, fi, frozenset({b}) if self.is_text(b) else frozenset())
+
+    def lookup(self, tbl, args, e, fi):
+        dflt = args[1] if len(args) > 1 else frozenset({self.const(None)})
+        self.events.append({"kind": "lookup", "fi": fi, "node": e, "table": tbl, "key": args[0], "default": dflt})
+        return {("lookup", len(self.events) - 1)}
+
+    def call_value(self, fv, args, kw, e, fi):
+        if fv[0] == "fn":
+            callee = self.pm.funcs.get(fv[1])
+            if callee is not None:
+                return self.call_fn(callee, None, args, kw, e)
+        if fv[0] == "meth":
+            callee = self.pm.funcs.get(fv[1])
+            if callee is not None:
+                return self.call_fn(callee, fv[2], args, kw, e)
+        if fv[0] == "cls":
+            return {self.construct(fv[1], args, kw, e)}
+        if fv[0] == "lambda":
+            node, cenv, cfi = self.lambdas[fv[1]]
+            env = dict(cenv)
+            for p, a in zip(node.args.args, args):
+                env[p.arg] = a
+            return self.ev(node.body, env, cfi)
+        return self.generic(unparse(e.func), args, kw, e, fi, frozenset())
+
+    def construct(self, cls, args, kw, e):
+        obj = self.new_obj(cls)
+        init = self.pm.find_method(cls, "__init__")
+        if init is not None:
+            self.call_fn(init, obj, args, kw, e)
+        else:
+            flds = list(self.pm.all_fields(cls))
+            for i, a in enumerate(args):
+                if i < len(flds):
+                    self.objs[obj[2]][flds[i]] = a
+            for k, v in kw.items():
+                self.objs[obj[2]][k] = v
+        return obj
+
+    def call_fn(self, callee, selfval, args, kw, e):
+        if callee.short in self.stack or len(self.stack) > 12:
+            return {("other", "recursive call of " + callee.short)}
+        node = callee.node
+        if not isinstance(node, (ast.FunctionDef, ast.AsyncFunctionDef)):
+            return {("other", "call of " + callee.short)}
+        env: dict = dict(self.closures.get(callee.short, {}))
+        fa = node.args
+        params = list(fa.posonlyargs) + list(fa.args)
+        if callee.cls and not callee.is_static and params and callee.parent is None:
+            if selfval is not None and selfval[0] == "cls" and not callee.is_classmethod and args:
+                env[params[0].arg] = args[0]          # unbound call Class.method(obj, …)
+                args = args[1:]
+            else:
+                env[params[0].arg] = frozenset({selfval if selfval is not None else self.new_obj(callee.cls)})
+            params = params[1:]
+        allp = list(fa.posonlyargs) + list(fa.args)
+        dstart = len(allp) - len(fa.defaults)
+        kw = dict(kw)
+        for i, p in enumerate(params):
+            gi = allp.index(p)
+            if i < len(args):
+                env[p.arg] = args[i]
+            elif p.arg in kw:
+                env[p.arg] = kw.pop(p.arg)
+            elif gi >= dstart:
+                env[p.arg] = self.ev(fa.defaults[gi - dstart], {}, callee)
+            else:
+                env[p.arg] = frozenset({("other", "parameter " + p.arg)})
+        for p, d in zip(fa.kwonlyargs, fa.kw_defaults):
+            if p.arg in kw:
+                env[p.arg] = kw.pop(p.arg)
+            elif d is not None:
+                env[p.arg] = self.ev(d, {}, callee)
+            else:
+                env[p.arg] = frozenset({("other", "parameter " + p.arg)})
+        if fa.vararg:
+            env[fa.vararg.arg] = frozenset({("other", "*" + fa.vararg.arg)})
+        if fa.kwarg:
+            env[fa.kwarg.arg] = frozenset({("other", "**" + fa.kwarg.arg)})
+        self.stack.append(callee.short)
+        try:
+            rets: list = []
+            out = self.block(node.body, env, callee, rets)
+            if out is not None:
+                rets.append(frozenset({self.const(None)}))
+        finally:
+            self.stack.pop()
+        res = set()
+        for r in rets:
+            res |= set(r)
+        return res
+
+    # ---- truth and narrowing
+    KIND_TYPES = {"text": "str", "esc": "str", "bool": "bool"}
+
+    def truth(self, t, env, fi):
+        if isinstance(t, ast.BoolOp):
+            ts = [self.truth(v, env, fi) for v in t.values]
+            if isinstance(t.op, ast.And):
+                return False if any(x is False for x in ts) else (True if all(x is True for x in ts) else None)
+            return True if any(x is True for x in ts) else (False if all(x is False for x in ts) else None)
+        if isinstance(t, ast.UnaryOp) and isinstance(t.op, ast.Not):
+            x = self.truth(t.operand, env, fi)
+            return None if x is None else not x
+        if isinstance(t, ast.Compare) and len(t.ops) == 1:
+            op = t.ops[0]
+            l, r = self.ev(t.left, env, fi), self.ev(t.comparators[0], env, fi)
+            if isinstance(op, (ast.Is, ast.IsNot)) and r == frozenset({self.const(None)}):
+                res = set()
+                for v in l:
+                    if v == self.const(None):
+                        res.add(True)
+                    elif v[0] in ("text", "esc", "obj", "cls", "fn", "meth", "cref", "const", "match", "lambda"):
+                        res.add(False)
+                    else:
+                        res.add(None)
+                if len(res) == 1 and None not in res:
+                    x = res.pop()
+                    return x if isinstance(op, ast.Is) else not x
+                return None
+            if len(l) == 1 and len(r) == 1:
+                (ok1, a), (ok2, b) = self.pyval(next(iter(l))), self.pyval(next(iter(r)))
+                if ok1 and ok2:
+                    try:
+                        from ..absint import _cmp
+                        return bool(_cmp(op, a, b))
+                    except Exception:
+                        return None
+            return None
+        if isinstance(t, ast.Call) and isinstance(t.func, ast.Name) and t.func.id == "isinstance" and len(t.args) == 2:
+            names = {x.id if isinstance(x, ast.Name) else x.attr for x in ast.walk(t.args[1]) if isinstance(x, (ast.Name, ast.Attribute))}
+            res = set()
+            for v in self.ev(t.args[0], env, fi):
+                ok, pv = self.pyval(v)
+                if v[0] in ("text", "esc"):
+                    res.add("str" in names)
+                elif ok:
+                    res.add(type(pv).__name__ in names or (isinstance(pv, bool) and "int" in names))
+                elif v[0] == "obj":
+                    res.add(any(n in self.pm.mro(v[1]) for n in names))
+                else:
+                    res.add(None)
+            return res.pop() if len(res) == 1 else None
+        vals = self.ev(t, env, fi)
+        res = set()
+        for v in vals:
+            ok, pv = self.pyval(v)
+            if ok:
+                res.add(bool(pv))
+            elif v[0] in ("obj", "cls", "fn", "meth", "match", "lambda"):
+                res.add(True)
+            else:
+                res.add(None)
+        return res.pop() if len(res) == 1 else None
+
+    def narrow(self, env, t, branch: bool, fi):
+        """refine the values of plain names by the outcome of a test (on a copy of the environment)"""
+        if isinstance(t, ast.UnaryOp) and isinstance(t.op, ast.Not):
+            return self.narrow(env, t.operand, not branch, fi)
+        if isinstance(t, ast.BoolOp):
+            conj = isinstance(t.op, ast.And)
+            if conj == branch:          # all operands have the branch's outcome
+                for v in t.values:
+                    env = self.narrow(env, v, branch, fi)
+                return env
+            undecided = [v for v in t.values if self.truth(v, env, fi) is None]
+            if len(undecided) == 1 and all(self.truth(v, env, fi) is (not branch) for v in t.values if v is not undecided[0]):
+                return self.narrow(env, undecided[0], branch, fi)
+            return env
+        if isinstance(t, ast.Name) and t.id in env:
+            new = set()
+            for v in env[t.id]:
+                ok, pv = self.pyval(v)
+                if ok:
+                    if bool(pv) == branch:
+                        new.add(v)
+                elif v[0] in ("text", "esc"):
+                    new.add(v if branch else self.const(""))      # a falsy string is the empty string
+                elif v[0] in ("obj", "cls", "fn", "meth", "match", "lambda"):
+                    if branch:
+                        new.add(v)
+                else:
+                    new.add(v)
+            if new:
+                env[t.id] = frozenset(new)
+            return env
+        if isinstance(t, ast.Compare) and len(t.ops) == 1 and isinstance(t.left, ast.Name) and t.left.id in env \
+                and isinstance(t.ops[0], (ast.Is, ast.IsNot)) and isinstance(t.comparators[0], ast.Constant) and t.comparators[0].value is None:
+            is_none = isinstance(t.ops[0], ast.Is) == branch
+            none = self.const(None)
+            new = {v for v in env[t.left.id] if (v == none) == is_none or (v[0] in ("other", "bool", "lookup") and not is_none)}
+            if is_none:
+                new = {none}
+            if new:
+                env[t.left.id] = frozenset(new)
+        return env
+
+    # ---- statements
+    def join(self, a, b):
+        if a is None:
+            return b
+        if b is None:
+            return a
+        out = {}
+        for k in set(a) | set(b):
+            out[k] = frozenset(a.get(k, frozenset())) | frozenset(b.get(k, frozenset()))
+        return out
+
+    def block(self, stmts, env, fi, rets):
+        for s in stmts:
+            env = self.stmt(s, env, fi, rets)
+            if env is None:
+                return None
+        return env
+
+    def bind(self, target, vals, env, fi):
+        if isinstance(target, ast.Name):
+            env[target.id] = frozenset(vals)
+        elif isinstance(target, (ast.Tuple, ast.List)):
+            for i, t in enumerate(target.elts):
+                sub = set()
+                for v in vals:
+                    ok, pv = self.pyval(v)
+                    if ok and isinstance(pv, (tuple, list)) and len(pv) == len(target.elts):
+                        sub.add(self.const(pv[i]))
+                    elif self.is_text(v) or v[0] == "esc":
+                        sub.add(v)
+                    else:
+                        sub.add(("other", "unpacked " + unparse(target)[:40]))
+                self.bind(t.value if isinstance(t, ast.Starred) else t, sub, env, fi)
+        elif isinstance(target, ast.Attribute):
+            for b in self.ev(target.value, env, fi):
+                if b[0] == "obj":
+                    cur = self.objs[b[2]].get(target.attr, frozenset())
+                    self.objs[b[2]][target.attr] = frozenset(cur) | frozenset(vals)
+
+    def stored_names(self, node):
+        """names (re)bound or mutated in place (acc.append(x), acc.extend(…), acc[i] = x) under node"""
+        out = {x.id for x in ast.walk(node) if isinstance(x, ast.Name) and isinstance(x.ctx, ast.Store)}
+        for x in ast.walk(node):
+            if isinstance(x, ast.Call) and isinstance(x.func, ast.Attribute) and isinstance(x.func.value, ast.Name) \
+                    and x.func.attr in ("append", "extend", "insert", "add", "update", "write", "appendleft"):
+                out.add(x.func.value.id)
+            elif isinstance(x, ast.Subscript) and isinstance(x.ctx, ast.Store) and isinstance(x.value, ast.Name):
+                out.add(x.value.id)
+        return out
+
+    def stmt(self, s, env, fi, rets):
+        k = type(s).__name__
+        if k == "Return":
+            rets.append(self.ev(s.value, env, fi) if s.value is not None else frozenset({self.const(None)}))
+            return None
+        if k == "Raise":
+            return None
+        if k in ("Pass", "Import", "ImportFrom", "Global", "Nonlocal", "Assert", "Delete", "ClassDef"):
+            return env
+        if k == "Expr":
+            self.ev(s.value, env, fi)
+            return env
+        if k == "Assign":
+            vals = self.ev(s.value, env, fi)
+            for t in s.targets:
+                self.bind(t, vals, env, fi)
+            return env
+        if k == "AnnAssign":
+            if s.value is not None:
+                self.bind(s.target, self.ev(s.value, env, fi), env, fi)
+            return env
+        if k == "AugAssign":
+            cur = self.ev(s.target, env, fi) if isinstance(s.target, ast.Name) and s.target.id in env else frozenset()
+            vals = self.ev(s.value, env, fi)
+            r = self.with_op(set(cur) | set(vals), ("augmented assignment", unparse(s)[:50], fi.where(s)))
+            self.bind(s.target, r or {self.other(s.target)}, env, fi)
+            return env
+        if k == "If":
+            t = self.truth(s.test, env, fi)
+            if t is True:
+                return self.block(s.body, self.narrow(env, s.test, True, fi), fi, rets)
+            if t is False:
+                return self.block(s.orelse, self.narrow(env, s.test, False, fi), fi, rets)
+            e1 = self.block(s.body, self.narrow(dict(env), s.test, True, fi), fi, rets)
+            e2 = self.block(s.orelse, self.narrow(dict(env), s.test, False, fi), fi, rets)
+            return self.join(e1, e2)
+        if k in ("For", "AsyncFor"):
+            return self.loop(s, env, fi, rets)
+        if k == "While":
+            e1 = self.block(s.body, dict(env), fi, rets)
+            return self.join(env, e1)
+        if k == "Try":
+            e1 = self.block(s.body, dict(env), fi, rets)
+            if e1 is not None and s.orelse:
+                e1 = self.block(s.orelse, e1, fi, rets)
+            out = e1
+            for h in s.handlers:
+                # exceptional paths are outside the documented behaviour: their returns are not collected
+                eh = dict(env)
+                if h.name:
+                    eh[h.name] = frozenset({("other", "exception")})
+                out = self.join(out, self.block(h.body, eh, fi, []))
+            if out is not None and s.finalbody:
+                out = self.block(s.finalbody, out, fi, rets)
+            return out
+        if k in ("With", "AsyncWith"):
+            for it in s.items:
+                v = self.ev(it.context_expr, env, fi)
+                if it.optional_vars is not None:
+                    self.bind(it.optional_vars, v, env, fi)
+            return self.block(s.body, env, fi, rets)
+        if k in ("FunctionDef", "AsyncFunctionDef"):
+            short = f"{fi.short}.<locals>.{s.name}"
+            self.closures[short] = env          # by reference: later bindings of the enclosing scope are visible
+            env[s.name] = frozenset({("fn", short)})
+            return env
+        self.unsupported.append(f"{fi.short}: {k} statement at {fi.where(s)}")
+        return env
+
+    def loop(self, s, env, fi, rets):
+        itv = self.ev(s.iter, env, fi)
+        if id(s) in self.escape_nodes:
+            self.events.append({"kind": "chars", "fi": fi, "node": s, "vals": itv})
+            for n in self.stored_names(s):
+                env[n] = frozenset({("esc",)})
+            return env
+        # an ordered replacement table applied to a string:  for k, v in TABLE: x = x.replace(k, v)
+        pairs = None
+        if len(itv) == 1:
+            ok, pv = self.pyval(next(iter(itv)))
+            if ok and isinstance(pv, dict):
+                pv = list(pv)
+            if ok and isinstance(pv, (list, tuple)) and all(isinstance(x, (tuple, list)) and len(x) == 2 and all(isinstance(y, str) for y in x) for x in pv):
+                pairs = tuple((a, b) for a, b in pv)
+        if pairs is not None and isinstance(s.target, (ast.Tuple, ast.List)) and len(s.target.elts) == 2 \
+                and all(isinstance(t, ast.Name) for t in s.target.elts) and len(s.body) == 1 and not s.orelse:
+            kn, vn = s.target.elts[0].id, s.target.elts[1].id
+            b = s.body[0]
+            if isinstance(b, ast.Assign) and len(b.targets) == 1 and isinstance(b.targets[0], ast.Name) and isinstance(b.value, ast.Call) \
+                    and isinstance(b.value.func, ast.Attribute) and b.value.func.attr == "replace" \
+                    and isinstance(b.value.func.value, ast.Name) and b.value.func.value.id == b.targets[0].id \
+                    and [unparse(a) for a in b.value.args] == [kn, vn] and not b.value.keywords and b.targets[0].id in env:
+                x = b.targets[0].id
+                r = self.with_op(env[x], ("map", pairs, fi.where(s)))
+                if r:
+                    env[x] = frozenset(r) | frozenset(v for v in env[x] if not self.is_text(v) and v[0] != "esc")
+                    return env
+        e1 = dict(env)
+        self.bind(s.target, self.elems(itv, s.iter), e1, fi)
+        e1 = self.block(s.body, e1, fi, rets)
+        out = self.join(env, e1)
+        if s.orelse and out is not None:
+            out = self.block(s.orelse, out, fi, rets)
+        return out
+
+
+def _op_desc(op) -> str:
+    if op[0] == "map":
+        return f"replacement table ({len(op[1])} entries)"
+    if op[0] == "sub":
+        return "regex substitution"
+    if op[0] == "call":
+        return f"`{op[1]}`"
+    return f"{op[0]}({op[1]})" if op[0] not in ("concat", "format", "index", "element", "augmented assignment") else f"{op[0]} `{op[1]}`"
+
+
+FLAG_FIELD = "convert"
+TEXT_FIELD = "text"
+
+
+def run_world(ctx: Ctx, flag: bool, escape_nodes: set):
+    """symbolic run of the escaper entry point with the conversion flag fixed; returns (executor, tracked strings
+    that reach the per-character escaper, other values that reach it)"""
+    from .c10 import ENTRY
     pm = ctx.pm
-    fi = pm.func("TextContent._convert_special_chars")
-    # the mapping loop must be inside `if self.convert`
-    loops = [n for n in walk_no_nested(fi.node) if isinstance(n, ast.For) and "RTF_CHAR_MAPPING" in unparse(_inline(fi, n.iter.func.value if isinstance(n.iter, ast.Call) and isinstance(n.iter.func, ast.Attribute) else n.iter))]
-    if not loops:
-        ctx.violation("R11.4", fi.short, "mapping loop missing", fi.where(), "the ordered replacement loop over RTF_CHAR_MAPPING is gone")
-    for lp in loops:
-        gated = False
-        p = getattr(lp, "_parent", None)
-        while p is not None and p is not fi.node:
-            if isinstance(p, ast.If) and unparse(p.test) in ("self.convert",) and any(x is lp for s in p.body for x in ast.walk(s)):
-                gated = True
-            p = getattr(p, "_parent", None)
-        reps = [c for c in ast.walk(lp) if isinstance(c, ast.Call) and isinstance(c.func, ast.Attribute) and c.func.attr == "replace"]
-        ctx.instance("R11.4", fi.where(lp), f"mapping loop gated by self.convert: {gated}; replace calls: {len(reps)}")
-        if not gated:
-            ctx.violation("R11.4", fi.short, "mapping loop not gated", fi.where(lp), "special-sequence replacement runs even when text_convert is off")
-        if len(reps) != 1 or len(reps[0].args) != 2:
-            ctx.violation("R11.4", fi.short, "mapping loop body", fi.where(lp), "mapping loop is not a single text.replace(key, value)")
-    # inside the gate only the single replace of the mapping loop may rewrite the text
-    REWRITE = ("replace", "translate", "sub", "strip", "lstrip", "rstrip", "lower", "upper", "title", "expandtabs", "casefold", "splitlines",
-               "split", "join", "normalize", "encode", "decode", "removeprefix", "removesuffix", "center", "ljust", "rjust", "zfill", "swapcase", "capitalize")
-    loop_replaces = {id(c) for lp in loops for c in ast.walk(lp) if isinstance(c, ast.Call)}
-    for c in walk_no_nested(fi.node):
-        if isinstance(c, ast.Call) and isinstance(c.func, ast.Attribute) and c.func.attr in REWRITE and id(c) not in loop_replaces:
-            tgt = unparse(c.func.value)
-            argtxt = " ".join(unparse(a) for a in c.args)
-            if tgt in ("text", "self.text", "converted_text") or "text" in argtxt.split("(")[0:1] or re.search(r"\btext\b", argtxt):
-                ctx.violation("R11.4", fi.short, f"extra rewriting {unparse(c)[:50]}", fi.where(c),
-                              f"`{unparse(c)[:70]}` rewrites the text in addition to the documented token table and LaTeX pass; characters other than the "
+    entry = pm.func(ENTRY)
+    if pm.field_decl(entry.cls, FLAG_FIELD) is None or pm.field_decl(entry.cls, TEXT_FIELD) is None:
+        raise AnalysisError(f"{entry.cls} no longer declares the fields {TEXT_FIELD!r} / {FLAG_FIELD!r} the conversion rules are anchored on")
+    sy = Sym(pm, {(entry.cls, FLAG_FIELD): flag}, {(entry.cls, TEXT_FIELD)}, escape_nodes)
+    obj = sy.new_obj(entry.cls)
+    sy.entry_returns = frozenset(sy.call_fn(entry, obj, [], {}, None))
+    texts, rest = set(), set()
+    for ev in sy.events:
+        if ev["kind"] == "chars":
+            for v in ev["vals"]:
+                (texts if v[0] == "text" and v[1] == "doc" else rest).add(v)
+    return sy, texts, rest
+
+
+def r11_4(ctx: Ctx, worlds: dict | None = None) -> dict:
+    """R11.4: what happens to the text before it reaches the character escaper, for each value of the conversion
+    flag.  Flag off: nothing.  Flag on: the ordered replacement table RTF_CHAR_MAPPING (complete, in order), then one
+    regex substitution (the LaTeX pass); nothing else."""
+    from ..callgraph import CallGraph
+    from .c10 import ENTRY, find_escape_loop
+    pm = ctx.pm
+    entry = pm.func(ENTRY)
+    mapping = const_attr(pm, "RTFConstants", "RTF_CHAR_MAPPING")
+    want_pairs = tuple(mapping.items()) if isinstance(mapping, dict) else None
+    if worlds is None:
+        loops = find_escape_loop(ctx, CallGraph(pm))
+        nodes = {id(lp.node) for _, lp in loops}
+        worlds = {flag: run_world(ctx, flag, nodes) for flag in (True, False)}
+    for flag in (True, False):
+        sy, texts, rest = worlds[flag]
+        if sy.unsupported:
+            ctx.gap("R11.4", f"{FLAG_FIELD}={flag}: statement outside the symbolic executor's subset on the text path ({sy.unsupported[0]})")
+        if not texts:
+            ctx.gap("R11.4", f"{FLAG_FIELD}={flag}: the text could not be followed from {entry.cls}.{TEXT_FIELD} to the per-character escaper "
+                             f"(values reaching it: {sorted(str(v)[:60] for v in rest)[:3]})")
+            continue
+        for tv in sorted(texts, key=str):
+            ops = tv[2]
+            ctx.instance("R11.4", entry.where(), f"{FLAG_FIELD}={flag}: escaper input = text" + "".join(" -> " + _op_desc(o) for o in ops))
+            maps = [o for o in ops if o[0] == "map"]
+            subs = [o for o in ops if o[0] == "sub"]
+            extra = [o for o in ops if o[0] not in ("map", "sub")]
+            if not flag:
+                for o in maps:
+                    ctx.violation("R11.4", entry.short, "mapping loop not gated", o[2] or entry.where(),
+                                  "special-sequence replacement runs even when text_convert is off")
+                for o in subs:
+                    ctx.violation("R11.4", entry.short, "LaTeX pass not gated", o[2] or entry.where(),
+                                  "the LaTeX substitution runs even when text_convert is off (it is not controlled by this cell's convert flag)")
+                for o in extra:
+                    ctx.violation("R11.4", entry.short, f"ungated {_op_desc(o)}"[:90], o[2] or entry.where(),
+                                  f"{_op_desc(o)} alters the text regardless of text_convert (surrounding blanks/characters must be preserved)")
+                continue
+            if not maps:
+                ctx.violation("R11.4", entry.short, "mapping loop missing", entry.where(),
+                              "with conversion on, the ordered replacement loop over RTF_CHAR_MAPPING is not applied to the text")
+            for o in maps:
+                if want_pairs is not None and o[1] != want_pairs:
+                    missing = [k for k, _ in want_pairs if k not in dict(o[1])]
+                    ctx.violation("R11.4", entry.short, "mapping loop table", o[2] or entry.where(),
+                                  "the replacement loop does not apply RTF_CHAR_MAPPING completely and in its order"
+                                  + (f" (missing keys {missing})" if missing else " (entries or order differ)"))
+            if len(maps) > 1:
+                ctx.violation("R11.4", entry.short, "mapping loop repeated", maps[1][2] or entry.where(), "the replacement table is applied more than once")
+            if not subs:
+                ctx.violation("R11.4", entry.short, "no LaTeX pass", entry.where(),
+                              "with conversion on, no regex substitution (LaTeX pass) is applied to the text before escaping")
+            elif maps and ops.index(subs[0]) < ops.index(maps[0]):
+                ctx.violation("R11.4", entry.short, "LaTeX pass before mapping", subs[0][2] or entry.where(),
+                              "the LaTeX pass runs before the special-sequence replacement (documented order: replacement table, then LaTeX)")
+            for o in extra:
+                ctx.violation("R11.4", entry.short, f"extra rewriting {_op_desc(o)}"[:90], o[2] or entry.where(),
+                              f"{_op_desc(o)} rewrites the text in addition to the documented token table and LaTeX pass; characters other than the "
                               "documented tokens are altered (e.g. splitlines() also splits on U+2028/U+2029)")
-    # any other .replace/.sub/.translate on the text outside the gate is an ungated transformation
-    for c in walk_no_nested(fi.node):
-        if isinstance(c, ast.Call) and isinstance(c.func, ast.Attribute) and c.func.attr in ("replace", "translate", "sub", "strip", "lstrip", "rstrip", "lower", "upper", "title", "expandtabs", "casefold"):
-            inside = any(isinstance(p, ast.If) and unparse(p.test) == "self.convert" for p in _ancestors(c, fi.node))
-            ctx.instance("R11.4", fi.where(c), f"text transformation {unparse(c.func)} gated: {inside}")
-            if not inside:
-                ctx.violation("R11.4", fi.short, f"ungated {unparse(c.func)}", fi.where(c),
-                              f"{unparse(c)[:60]} alters the text regardless of text_convert (surrounding blanks/characters must be preserved)")
-    # the LaTeX pass receives the flag
-    calls = [c for c in walk_no_nested(fi.node) if isinstance(c, ast.Call) and dotted(c.func).endswith("convert_text_content")]
-    for c in calls:
-        flag = c.args[1] if len(c.args) > 1 else next((k.value for k in c.keywords if k.arg == "enable_conversion"), None)
-        ctx.instance("R11.4", fi.where(c), f"convert_text_content flag argument: {unparse(flag)}")
-        if flag is None or unparse(flag) != "self.convert":
-            ctx.violation("R11.4", fi.short, f"flag {unparse(flag)}", fi.where(c), "LaTeX pass is not controlled by this cell's convert flag")
-    if not calls:
-        ctx.violation("R11.4", fi.short, "no LaTeX pass", fi.where(), "convert_text_content is no longer called from the text pipeline")
-    g = pm.func("TextConversionService.convert_text_content")
-    first = [s for s in g.node.body if not (isinstance(s, ast.Expr) and isinstance(s.value, ast.Constant))][0]
-    ok = isinstance(first, ast.If) and "not enable_conversion" in unparse(first.test) and len(first.body) == 1 and \
-        isinstance(first.body[0], ast.Return) and unparse(first.body[0].value) == "text"
-    ctx.instance("R11.4", g.where(first), f"convert_text_content first statement: `{unparse(first)[:70]}`")
-    if not ok:
-        ctx.violation("R11.4", g.short, "flag-off path", g.where(first), "with conversion off convert_text_content must return its argument unchanged as its first step")
-    ctx.floor("R11.4", 4)
+    ctx.floor("R11.4", 2)
+    return worlds
 
 
-def _ancestors(n, stop):
-    p = getattr(n, "_parent", None)
-    while p is not None and p is not stop:
-        yield p
-        p = getattr(p, "_parent", None)
+def _same(vals, want) -> bool:
+    return set(vals) == {want}
 
 
-def r11_5_6_7(ctx: Ctx, table: dict) -> None:
+def r11_5_6_7(ctx: Ctx, table: dict, worlds: dict) -> list:
+    """R11.7 the LaTeX pass is one regex substitution whose callback maps the whole match to a table look-up;
+    R11.5 the look-up is the identity on a miss; R11.6 the table looked up is the dictionary itself."""
     pm = ctx.pm
-    # R11.6 mapper table is the dictionary itself
-    init = pm.func("LaTeXSymbolMapper.__init__")
-    assigns = [n for n in walk_no_nested(init.node) if isinstance(n, ast.Assign) and unparse(n.targets[0]) == "self.latex_to_char"]
-    ok = len(assigns) == 1 and isinstance(assigns[0].value, ast.Name)
-    src_ok = False
-    if ok:
-        r = pm.resolve(init.module, assigns[0].value.id)
-        src_ok = bool(r and r[0] == "value" and r[1][0].name == "rtflite.dictionary.unicode_latex")
-    ctx.instance("R11.6", init.where(), f"LaTeXSymbolMapper.latex_to_char = {unparse(assigns[0].value) if assigns else '?'} (dictionary module: {src_ok})")
-    if not (ok and src_ok):
-        ctx.violation("R11.6", init.short, "mapper table " + (unparse(assigns[0].value) if assigns else "missing"), init.where(),
-                      "the symbol mapper no longer uses the dictionary table as is (entries can be filtered or altered)")
+    sy, texts, _ = worlds[True]
+    cmd = Sym.text("cmd")
+    used = sorted({o[1] for tv in texts for o in tv[2] if o[0] == "sub"})
+    subs = [sy.events[i] for i in used]
+    entry_where = pm.func("TextContent._convert_special_chars").where()
+    for tv in texts:
+        n = len([o for o in tv[2] if o[0] == "sub"])
+        if n != 1:
+            ctx.violation("R11.7", "LaTeX pass", "not a single pattern.sub", entry_where,
+                          f"LaTeX conversion is not one left-to-right `pattern.sub(callback, text)` ({n} regex substitutions are applied to the text); "
+                          "token-wise or global replacement can rewrite parts of longer unknown commands")
+    lookups_seen = []
+    for ev in subs:
+        fi, node = ev["fi"], ev["node"]
+        ctx.instance("R11.7", fi.where(node), f"{fi.short}: regex substitution `{unparse(node)[:70]}`")
+        if ev["limited"]:
+            ctx.violation("R11.7", fi.short, "substitution with count/flags", fi.where(node), "the substitution is limited by a count or modified by flags")
+        n0 = len(sy.events)
+        res = set()
+        for cb in ev["repl"]:
+            if cb[0] in ("fn", "meth", "lambda"):
+                res |= set(sy.call_value(cb, [frozenset({("match",)})], {}, node, fi))
+            else:
+                res.add(("other", "non-callable replacement " + str(cb)[:40]))
+        ctx.instance("R11.7", fi.where(node), f"callback `{unparse(ev['repl_expr'])[:50]}` returns "
+                     + ", ".join(sorted("the matched command" if v == cmd else ("table look-up" if v[0] == "lookup" else str(v)[:50]) for v in res)))
+        if not any(v[0] == "lookup" for v in res):
+            ctx.violation("R11.7", fi.short, "callback without table look-up", fi.where(node),
+                          "the substitution callback never looks the matched command up in the symbol table")
+        for v in sorted(res, key=str):
+            if v == cmd:
+                continue
+            if v[0] == "lookup":
+                lk = sy.events[v[1]]
+                lookups_seen.append(lk)
+                lfi, lnode = lk["fi"], lk["node"]
+                kexpr = unparse(lnode.args[0]) if isinstance(lnode, ast.Call) else unparse(lnode.slice)
+                if not _same(lk["key"], cmd):
+                    ctx.violation("R11.7", lfi.short, f"look-up key {kexpr}"[:80], lfi.where(lnode),
+                                  f"{lfi.short}: the table is looked up with {kexpr}, which is not the whole matched command as written "
+                                  "(a rewritten or partial command is translated)")
+                ctx.instance("R11.5", lfi.where(lnode), f"{lfi.short}: look-up `{unparse(lnode)[:70]}`")
+                if any(d[0] == "raises" and d[1] == "maybe handled" for d in lk["default"]):
+                    ctx.gap("R11.5", f"{lfi.short}: what `{unparse(lnode)[:60]}` yields on a miss depends on exception handling that is not modelled")
+                elif not (_same(lk["default"], cmd) or set(lk["default"]) == set(lk["key"])):
+                    ctx.violation("R11.5", lfi.short, unparse(lnode)[:80], lfi.where(lnode),
+                                  f"{lfi.short}: `{unparse(lnode)[:80]}` does not return the command itself on a miss "
+                                  "(unknown commands must stay verbatim)")
+                continue
+            what = "a rewritten command" if v[0] == "text" else str(v[1] if len(v) > 1 else v)[:60]
+            ctx.violation("R11.7", fi.short, f"callback returns {what}"[:90], fi.where(node),
+                          f"{fi.short}: the substitution callback can return {what}: neither the full-command look-up nor the command itself")
+    if not subs:
+        ctx.violation("R11.7", "LaTeX pass", "no regex substitution", entry_where,
+                      "no `pattern.sub(callback, text)` is applied to the text on the conversion path")
+    ctx.floor("R11.7", 2)
+    # R11.6 the table that is looked up is the dictionary itself
+    for lk in lookups_seen:
+        lfi, lnode = lk["fi"], lk["node"]
+        texpr = unparse(lnode.func.value if isinstance(lnode, ast.Call) else lnode.value)
+        for tv in lk["table"]:
+            ok, pv = sy.pyval(tv)
+            if not (ok and isinstance(pv, dict)):
+                ctx.gap("R11.6", f"{lfi.short}: the table `{texpr}` looked up by the LaTeX pass could not be evaluated to a constant mapping")
+                continue
+            missing = [k for k in table if k not in pv]
+            changed = [k for k in table if k in pv and pv[k] != table[k]]
+            added = [k for k in pv if k not in table]
+            ctx.instance("R11.6", lfi.where(lnode), f"{lfi.short}: `{texpr}` has {len(pv)} entries; vs dictionary: {len(missing)} missing, "
+                         f"{len(changed)} changed, {len(added)} added")
+            if missing or changed or added:
+                ctx.violation("R11.6", lfi.short, f"mapper table {texpr}", lfi.where(lnode),
+                              f"the symbol mapper no longer uses the dictionary table as is: {len(missing)} command(s) missing"
+                              f"{' (e.g. ' + repr(missing[0]) + ')' if missing else ''}, {len(changed)} altered, {len(added)} added")
     if len(table) < 682:
         ctx.violation("R11.6", "latex_to_char", f"{len(table)} entries", pm.module("rtflite.dictionary.unicode_latex").path + ":1",
                       f"dictionary has {len(table)} commands, 682 are documented as supported")
@@ -256,68 +1141,33 @@ def r11_5_6_7(ctx: Ctx, table: dict) -> None:
             ctx.violation("R11.6", "unicode_latex", f"duplicate {k}", "src/rtflite/dictionary/unicode_latex.py:1", f"command {k} listed twice with different characters")
         for x in bad[:5]:
             ctx.violation("R11.6", "unicode_latex", f"row {x}", "src/rtflite/dictionary/unicode_latex.py:1", f"row {x}: hex code and integer code disagree")
-    # R11.5 identity on miss
-    g = pm.func("LaTeXSymbolMapper.get_unicode_char")
-    rets = [r for r in walk_no_nested(g.node) if isinstance(r, ast.Return)]
-    p0 = g.node.args.args[1].arg
-    ok = len(rets) == 1 and isinstance(rets[0].value, ast.Call) and unparse(rets[0].value.func) == "self.latex_to_char.get" \
-        and [unparse(a) for a in rets[0].value.args] == [p0, p0]
-    ctx.instance("R11.5", g.where(), f"get_unicode_char returns {unparse(rets[0].value) if rets else '?'}")
-    if not ok:
-        ctx.violation("R11.5", g.short, unparse(rets[0].value) if rets else "no return", g.where(),
-                      "get_unicode_char is no longer `table.get(command, command)` (unknown commands must stay verbatim)")
-    # R11.7 single left-to-right substitution with per-match lookup
-    c = pm.func("TextConverter.convert_latex_to_unicode")
-    subs = [n for n in walk_no_nested(c.node) if isinstance(n, ast.Call) and isinstance(n.func, ast.Attribute) and n.func.attr == "sub"]
-    others = [n for n in walk_no_nested(c.node) if isinstance(n, ast.Call) and isinstance(n.func, ast.Attribute)
-              and n.func.attr in ("replace", "findall", "finditer", "split", "translate")]
-    ok = len(subs) == 1 and unparse(subs[0].func.value) == "self._latex_pattern" and len(subs[0].args) == 2 and not others
-    ctx.instance("R11.7", c.where(), f"convert_latex_to_unicode: pattern.sub calls {len(subs)}, other rewriting calls {len(others)}")
-    if not ok:
-        ctx.violation("R11.7", c.short, "not a single pattern.sub", c.where(),
-                      "LaTeX conversion is no longer one left-to-right `pattern.sub(callback, text)`; token-wise or global "
-                      "replacement can rewrite parts of longer unknown commands")
-    else:
-        cb = subs[0].args[0]
-        cbf = None
-        if isinstance(cb, ast.Name):
-            cbf = pm.funcs.get(f"{c.short}.<locals>.{cb.id}")
-        body_txt = unparse(cbf.node) if cbf else unparse(cb)
-        ok2 = "group(0)" in body_txt and "_convert_single_command" in body_txt
-        ctx.instance("R11.7", c.where(subs[0]), f"callback {unparse(cb)} uses the whole match and _convert_single_command: {ok2}")
-        if not ok2:
-            ctx.violation("R11.7", c.short, "callback " + unparse(cb), c.where(subs[0]), "substitution callback does not look up the whole matched command")
-    s = pm.func("TextConverter._convert_single_command")
-    h = pm.func("TextConverter._handle_braced_command")
-    for f in (s, h):
-        p1 = f.node.args.args[1].arg
-        rets = [r for r in walk_no_nested(f.node) if isinstance(r, ast.Return) and r.value is not None]
-        allowed = {p1, f"self.symbol_mapper.get_unicode_char({p1})", f"self._handle_braced_command({p1})", "unicode_result"}
-        bad = [unparse(r.value) for r in rets if unparse(r.value) not in allowed]
-        ctx.instance("R11.7", f.where(), f"{f.short} returns {[unparse(r.value) for r in rets]}")
-        if bad:
-            ctx.violation("R11.7", f.short, "returns " + bad[0], f.where(), f"{f.short} returns {bad[0]}: not the full-command lookup nor the command itself")
-    ctx.floor("R11.7", 4)
     # plumbing: every TextContent(...) construction on the render path passes convert= from text_convert
-    n = 0
+    from ..consteval import expand_keywords
+    from ..astmatch import resolve
     for fi in pm.iter_funcs():
         for call in walk_no_nested(fi.node):
             if isinstance(call, ast.Call) and dotted(call.func).split(".")[-1] == "TextContent":
-                kw = {k.arg: k.value for k in call.keywords}
-                if "text" not in kw:
+                pairs, complete = expand_keywords(pm, fi, call)
+                kw = dict(pairs)
+                if TEXT_FIELD not in kw:
                     continue
-                n += 1
-                cv = kw.get("convert")
+                if not complete and FLAG_FIELD not in kw:
+                    ctx.gap("R11.5", f"{fi.short}: TextContent(…, **mapping) at {fi.where(call)}: the mapping could not be expanded")
+                    continue
+                cv = kw.get(FLAG_FIELD)
                 txt = unparse(cv) if cv is not None else "<default True>"
-                fed = cv is not None and ("text_convert" in txt or txt in ("convert", "False"))
-                if isinstance(cv, ast.Name):
-                    src_e = _inline(fi, cv)
-                    fed = fed and ("text_convert" in unparse(src_e) or txt == "False")
+                fed = False
+                if cv is not None:
+                    src_e = resolve(cv, fi.node)
+                    names = {x.value for x in ast.walk(src_e) if isinstance(x, ast.Constant) and isinstance(x.value, str)} | \
+                            {x.attr for x in ast.walk(src_e) if isinstance(x, ast.Attribute)}
+                    fed = "text_convert" in names or (isinstance(src_e, ast.Constant) and src_e.value is False)
                 ctx.instance("R11.5", fi.where(call), f"{fi.short}: TextContent(convert={txt})")
                 if not fed:
                     ctx.violation("R11.5", fi.short, f"convert={txt}", fi.where(call),
                                   f"{fi.short}: TextContent is built with convert={txt}, not from the component's text_convert at the same position")
     ctx.floor("R11.5", 4)
+    return subs
 
 
 def r11_defaults(ctx: Ctx) -> None:
@@ -328,9 +1178,12 @@ def r11_defaults(ctx: Ctx) -> None:
     for short, val in want.items():
         fi = ctx.pm.func(short)
         d = const_call(ctx.pm, short)
-        got = d.get("text_convert") if isinstance(d, dict) else None
+        if not isinstance(d, dict):
+            ctx.gap("R11.5", f"{short}: the defaults it returns could not be evaluated to a constant mapping")
+            continue
+        got = d.get("text_convert")
         ctx.instance("R11.5", fi.where(), f"{short}: text_convert default {got}")
-        if got != [val]:
+        if got not in ([val], (val,), val):
             ctx.violation("R11.5", short, f"text_convert default {got}", fi.where(), f"{short}: default text_convert is {got}, documented {[val]}")
 
 
@@ -350,10 +1203,10 @@ def check(ctx: Ctx) -> None:
     if mapping is NOC or table is NOC:
         raise AnalysisError("RTF_CHAR_MAPPING / latex_to_char are no longer constant tables")
     r11_1(ctx, mapping)
-    rx = r11_2(ctx, table)
+    worlds = r11_4(ctx)
+    subs = r11_5_6_7(ctx, table, worlds)
+    rx = r11_2(ctx, table, subs)
     r11_3(ctx, mapping, table, rx)
-    r11_4(ctx)
-    r11_5_6_7(ctx, table)
     r11_defaults(ctx)
     ctx.extra["table_rows"] = len(table)
     ctx.extra["exhaustive"] = True
